@@ -167,8 +167,12 @@ pub fn large_cases(a: &Args, rep: &mut Report, label: &str, quick: &[usize], tho
     if a.leg.as_deref().map_or(false, |l| l != "relcheck" && l != "norayon") {
         return;
     }
-    let szs: &[usize] = if a.tier == "thorough" { thorough } else { quick };
-    run_parallel(rep, szs.len() as u64, budget(a, 300., 2400.), |k, rep| {
+    let mut szs: &[usize] = if a.tier == "thorough" { thorough } else { quick };
+    // the build without rayon constructs every cell on one thread: its quick leg takes the first size only
+    if a.tier != "thorough" && a.leg.as_deref() == Some("norayon") {
+        szs = &szs[..1];
+    }
+    let make = |k: u64| {
         let n = szs[k as usize];
         let o = GenOpts {
             families: &["uniform", "gradient", "uniform"],
@@ -177,11 +181,29 @@ pub fn large_cases(a: &Args, rep: &mut Report, label: &str, quick: &[usize], tho
             mild_box: true,
             ..Default::default()
         };
-        let c = gen_case(&format!("{label}large"), &a.tier, a.seed, k, &o);
-        f(&c, rep);
-        rep.count("large_inputs", 1);
-        rep.max("largest_input_generators", c.n() as f64);
-    });
+        gen_case(&format!("{label}large"), &a.tier, a.seed, k, &o)
+    };
+    // Monitors that read the per-thread hook traces (C17) need the whole construction on one thread: their cases are spread
+    // over the pinned workers. The others run one case after the other on the calling thread, so that the library's own
+    // parallel loops use the global rayon pool (all cores) - a construction of 70 000 - 270 000 cells on ONE thread, several
+    // times per case, is what made these cases the long tail of the quick tier.
+    if label == "C17" || cfg!(not(feature = "par")) {
+        run_parallel(rep, szs.len() as u64, budget(a, 300., 2400.), |k, rep| {
+            let c = make(k);
+            f(&c, rep);
+            rep.count("large_inputs", 1);
+            rep.max("largest_input_generators", c.n() as f64);
+        });
+    } else {
+        for k in 0..szs.len() as u64 {
+            let c = make(k);
+            if let Err(p) = guarded(|| f(&c, rep)) {
+                rep.violations.push(panic_violation(label, &c, &p));
+            }
+            rep.count("large_inputs", 1);
+            rep.max("largest_input_generators", c.n() as f64);
+        }
+    }
 }
 
 /// Medium inputs under non-trivial masks: sizes just above the powers of two 2^10 .. 2^14 (plausible block sizes of a blocked
@@ -570,7 +592,7 @@ fn c02(a: &Args, rep: &mut Report) {
         let c = gen_case("C02", &a.tier, a.seed, k, &o);
         one_c02("C02", &c, rep);
     });
-    large_cases(a, rep, "C02", &[20000, 70000, 70000], &[20000, 70000, 140000, 270000], |c, rep| one_c02("C02", c, rep));
+    large_cases(a, rep, "C02", &[20000, 70000], &[20000, 70000, 140000, 270000], |c, rep| one_c02("C02", c, rep));
 }
 
 fn one_c03(prop: &str, c: &Case, rep: &mut Report) {
